@@ -167,6 +167,20 @@ def static_vec(*chars):
     return static(*a)
 
 
+GZIP_SEQ = ('b/b', 'b/b?', 'b/a', '../a', '../ab/a', 'b/..', 'a?b/b', './b/b', 'b/./b', 'b//b?x', 'a', 'b/b', 'e', 'b/a')
+
+
+def static_seq(k):
+    """Serves GZIP_SEQ[0..k] in order in one process (a large compressible file before small ones of the same type, ...) and checks
+    the last one: what one request leaves behind must not change the answer to the next. Replayed as the same sequence."""
+    r = True
+    for i in range(k + 1):
+        r = static_vec(*[ord(c) for c in GZIP_SEQ[i]])
+        if i < k and not r:
+            return True      # an earlier element fails: reported by the obligation instance that ends there
+    return r
+
+
 def obligations(tier):
     obs = []
     n = 5 if tier == 'quick' else 6
@@ -183,8 +197,8 @@ def obligations(tier):
     vec = [[ord(c) for c in p] + [0] * (8 - len(p)) for p in ('b/b', 'b/b?', 'b/a', '../a', 'b/..', 'a?b/b', './b/b', 'b/./b')]
     for v in vec:
         ln = 8 - v[::-1].index(0) if 0 in v else 8
-    obs.append({'name': 'concrete.gzip', 'kind': 'concrete', 'fn': 'static_vec', 'cfg': {'gzip': True}, 'group': 'concrete',
-                'args_list': [[ord(c) for c in p] for p in ('b/b', 'b/b?', 'b/a', '../a', '../ab/a', 'b/..', 'a?b/b', './b/b', 'b/./b', 'b//b?x')], 'timeout': 60})
+    obs.append({'name': 'concrete.gzip', 'kind': 'concrete', 'fn': 'static_seq', 'cfg': {'gzip': True}, 'group': 'concrete',
+                'args_list': [[k] for k in range(len(GZIP_SEQ))], 'timeout': 60})
     obs.append({'name': 'static.trailing_slash_root.n3', 'fn': 'static', 'cfg': {'n': 3, 'trailing_slash_root': True}, 'timeout': 900})
     return obs
 
